@@ -40,8 +40,24 @@ for line in out.splitlines():
         # a builder that started from a fresh copy modifies its own (tracked) files: take them; other properties' files are left alone
         owner_ok = (pid in path or low in path) or (OWN and any(o in path for o in OWN))
         if owner_ok or not any(f"C{n:02d}" in path or f"c{n:02d}" in path for n in range(1, 21)):
-            shutil.copy2(os.path.join(src, path), os.path.join(dst, path))
-            print("updated", path)
+            base = subprocess.run(["git", "-C", src, "show", f"HEAD:{path}"], capture_output=True).stdout
+            cur = open(os.path.join(dst, path), "rb").read() if os.path.exists(os.path.join(dst, path)) else base
+            if cur == base:
+                shutil.copy2(os.path.join(src, path), os.path.join(dst, path))
+                print("updated", path)
+            else:
+                # the shared tree changed this file after the builder copied it (another property's integration): 3-way merge
+                import tempfile
+                with tempfile.TemporaryDirectory() as td:
+                    open(os.path.join(td, "base"), "wb").write(base)
+                    r = subprocess.run(["git", "merge-file", "-p", os.path.join(dst, path), os.path.join(td, "base"), os.path.join(src, path)],
+                                       capture_output=True)
+                if r.returncode == 0:
+                    open(os.path.join(dst, path), "wb").write(r.stdout)
+                    print("MERGED (3-way, clean)", path)
+                else:
+                    shutil.copy2(os.path.join(src, path), os.path.join(dst, path) + ".theirs")
+                    print("CONFLICT (left as is; builder's version saved as .theirs):", path)
         else:
             print("SKIPPED (belongs to another property):", path)
 subprocess.run([sys.executable, os.path.join(dst, "tools", "regen_lean_index.py")])
